@@ -260,6 +260,15 @@ func (fc *FnCtx) enterLoop(l *Loop, head *ssa.BasicBlock, iter func(yield func(f
 	fc.havocSet(&fc.cur, mods)
 	for _, phi := range phis {
 		pv := fc.freshVal(phi.Name()+"."+phi.Comment, phi.Type())
+		if f := fc.familyOf[phi]; f != nil {
+			// member of a linear local append family: fixed private backing array, offset 0
+			c := fc.familyConst(f)
+			if f.nilRoot {
+				fc.assert(fmt.Sprintf("(and (or (= %s 0) (= %s %s)) (= %s 0))", pv.C[0], pv.C[0], c, pv.C[1]))
+			} else {
+				pv.C[0], pv.C[1] = c, "0"
+			}
+		}
 		fc.vals[phi] = pv
 		ls.phiVals[phi] = pv
 		fc.recordExisting(pv)
@@ -343,6 +352,9 @@ func (fc *FnCtx) loopEnv(l *Loop, phiMap map[*ssa.Phi]Val, h *HeapState) *Env {
 }
 
 func (fc *FnCtx) paramLookup(name string) (Val, bool) {
+	if fc.fn == nil {
+		return Val{}, false
+	}
 	for i, p := range fc.fn.Params {
 		if p.Name() == name || (name == "recv" && i == 0 && fc.fn.Signature.Recv() != nil) {
 			return fc.val(p), true
